@@ -7,6 +7,7 @@ import (
 	"go/constant"
 	"go/token"
 	"go/types"
+	"math/big"
 	"strings"
 
 	"golang.org/x/tools/go/ssa"
@@ -683,6 +684,18 @@ func (f *Frame) binop(op token.Token, a, b Val, resT types.Type, pos token.Pos) 
 			}
 		}
 	case token.AND, token.OR, token.XOR, token.AND_NOT:
+		// x & (2^k - 1) on a non-negative operand is x mod 2^k (mask with a constant)
+		if op == token.AND && a.s == SInt && b.s == SInt {
+			lo, _, _ := intRange(a.gt)
+			for _, pr := range [][2]Val{{a, b}, {b, a}} {
+				if m, ok := new(big.Int).SetString(pr[1].t, 10); ok && m.Sign() > 0 && lo != nil && lo.Sign() == 0 {
+					m1 := new(big.Int).Add(m, big.NewInt(1))
+					if m1.BitLen() > 1 && new(big.Int).And(m1, m).Sign() == 0 { // m + 1 is a power of two
+						return Val{sx("mod", pr[0].t, m1.String()), SInt, resT}
+					}
+				}
+			}
+		}
 		if a.s == SBool {
 			switch op {
 			case token.AND:
